@@ -467,6 +467,39 @@ func checkGetPC(ctx *Ctx) {
 	} else {
 		R.Pass("rununtil", "GetPC", pos, "RK<<16 | PC of the CPU")
 	}
+	// SetPC is its inverse: after SetPC(a), GetPC() is a & $FFFFFF
+	if set := ctx.Prog.Method("emulator", "System", "SetPC"); set != nil && len(set.Params) == 2 && pcA != nil && rkA != nil {
+		ip2 := absint.New()
+		sp2 := &absint.Ptr{Nil: absint.TriF, Obj: ip2.SymObj("s", sn), T: sn}
+		aa := ip2.In.Atom("a", 32, 0xFFFFFFFF)
+		_, out1 := ip2.Call(set, []absint.Val{sp2, absint.NewSym(32, aa, false)}, nil, &absint.State{Heap: absint.NewHeap(nil)})
+		spos := ctx.Prog.Pos(set.Pos())
+		if out1 == nil || len(ip2.Imprec) > 0 {
+			R.Fail("rununtil", "SetPC", spos, fmt.Sprintf("not interpretable: %v", ip2.Imprec))
+			return
+		}
+		res2, out2 := ip2.Call(fn, []absint.Val{sp2}, nil, out1)
+		r2, _ := res2.(*absint.Int)
+		bad := ""
+		if out2 == nil || r2 == nil {
+			bad = "GetPC after SetPC is not interpretable"
+		} else {
+			for i := 0; i < 32; i++ {
+				b := r2.Bits[i]
+				if i < 24 && (b.K != absint.BLit || b.A != aa || int(b.Idx) != i || b.Neg) {
+					bad = fmt.Sprintf("after SetPC(a), bit %d of GetPC() is %s, want bit %d of a", i, b, i)
+				}
+				if i >= 24 && b.K != absint.BZero {
+					bad = fmt.Sprintf("after SetPC(a), bit %d of GetPC() is %s, want 0", i, b)
+				}
+			}
+		}
+		if bad != "" {
+			R.Fail("rununtil", "SetPC", spos, bad)
+		} else {
+			R.Pass("rununtil", "SetPC", spos, "GetPC() after SetPC(a) is a & $FFFFFF")
+		}
+	}
 }
 
 func checkRunUntil(ctx *Ctx) {
